@@ -136,6 +136,13 @@ def gen_case(rng, force_codecs=None):
     rep = repertoire(codec, rng)
     ascii_only = not rep or rng.random() < 0.2
     text = "plain text" if ascii_only else "t" + "".join(rng.choice(rep) for _ in range(rng.randint(1, 12)))
+    if not ascii_only and rng.random() < 0.12:
+        # long payload, dense in multi-unit characters (for UTF-16 mostly surrogate pairs): whatever window, chunk or prefix length the
+        # implementation may use, some character straddles its end
+        pool = [c for c in rep if len(c.encode(codec)) >= (4 if family(codec) == "utf16/32" and "16" in codecs.lookup(codec).name else 2)] or rep
+        n = rng.choice([120, 250, 500, 1000, 2100, 4200, 9000])
+        text = "t" + "".join(rng.choice(pool) if rng.random() < 0.7 else rng.choice("ab c") for _ in range(n)).strip()
+        text = " ".join(text.split())
     cname = codecs.lookup(codec).name
     try:
         # pop() "repairs" text whose Latin-1 bytes happen to be valid UTF-8 (a documented heuristic, C02's subject): avoid it here
@@ -152,13 +159,21 @@ def gen_case(rng, force_codecs=None):
         except Exception:
             return None
     label = rng.choice([codec, cname, codec.upper(), cname.upper(), cname.replace("-", "_"), cname.title()]) if rng.random() < 0.6 else codec
-    channel = rng.choice(["decl", "http-app", "http-text", "both", "bom", "signature", "disagree-app", "disagree-text", "text-nocharset", "nonxml", "bogus-http", "bogus-decl"])
+    channel = rng.choice(["decl", "http-app", "http-text", "both", "bom", "signature", "disagree-app", "disagree-text", "text-nocharset", "nonxml", "bogus-http", "bogus-decl", "app-nocharset"])
     fam = family(codec)
     headers, decl, bom = {}, None, b""
     other = rng.choice(["iso-8859-1", "utf-8", "windows-1252", "koi8-r"])
     expect = {"text": text, "codec": codec, "clean": True, "exc": None}
     if channel == "decl":
         decl = label
+    elif channel == "app-nocharset":
+        # application/*xml without a charset parameter: the XML declaration decides (RFC 3023), with or without a BOM in front of it
+        headers = {"content-type": rng.choice(["application/xml", "application/atom+xml", "application/rss+xml"])}
+        decl = label
+        if cname in BOMS and rng.random() < 0.5:
+            bom = BOMS[cname]
+            if fam == "utf16/32":
+                decl = rng.choice([cname[:6], cname[:6].upper(), label])
     elif channel == "http-app":
         headers = {"content-type": rng.choice(["application/xml", "application/atom+xml", "application/rss+xml", "application/xml-dtd"]) + "; charset=" + label}
         decl = "" if rng.random() < 0.5 else None
@@ -304,6 +319,9 @@ def correspondence(ctx):
     for j in JUNK:
         for h in HDRS:
             cases.append((h, j))
+    for i, c in enumerate(boundary_cases(ctx.thorough)):
+        if ctx.thorough or i % 3 == 0:
+            cases.append((c["headers"], c["doc"]))
     for _ in range(ctx.n(300, 5000)):
         c = gen_case(rng)
         if c:
@@ -360,7 +378,9 @@ def check_case(c):
             r = feedparser.parse(c["doc"], response_headers=c["headers"])
         except Exception as e:
             return None      # totality is C01's subject
-    key = (c["channel"], c["family"]) if c["family"] != "ebcdic-like" else (c["channel"], c["family"], codecs.lookup(c["expect"]["codec"]).name)
+    # EBCDIC code pages: the finding is "the '<?xm' marker maps every EBCDIC page to cp037, so the DECLARATION of another page is mis-read"; it is the same
+    # mechanism whether there are no headers at all or an application/*xml type without charset (in both the declaration is what labels the feed)
+    key = (c["channel"], c["family"]) if c["family"] != "ebcdic-like" else ("decl" if c["channel"] == "app-nocharset" else c["channel"], c["family"], codecs.lookup(c["expect"]["codec"]).name)
     got_exc = type(r.get("bozo_exception")).__name__ if r.bozo else None
     title = r.feed.get("title")
     encn = r.get("encoding")
@@ -393,10 +413,47 @@ def check_case(c):
     return None
 
 
+def boundary_cases(thorough):
+    """deterministic alignment sweep: a multi-unit character (UTF-16 surrogate pair, 2-4 byte sequence of a multi-byte codec) placed so that it straddles
+    byte offset B of the document, for every power of two B a sniffing window / chunk / prefix could end at, labelled through each channel that makes
+    the implementation look for the declaration"""
+    wide = {"utf_16_le": "😀", "utf_16_be": "😀", "utf_32_le": "😀", "utf_8": "😀", "shift_jis": "あ", "gb18030": "😀", "big5": "中", "euc_kr": "한"}
+    bounds = [2 ** k for k in ((6, 7, 8, 9, 10, 11, 12, 13, 14, 16) if thorough else (8, 9, 10, 11, 12, 13, 16))]
+    for codec, ch in wide.items():
+        cname = codecs.lookup(codec).name
+        fam = family(codec)
+        w = len(ch.encode(codec))
+        for B in bounds:
+            for shift in range(1, w):                        # the boundary falls after `shift` bytes of the character
+                for channel in ("app-nocharset", "decl", "http-app"):
+                    for with_bom in ((False, True) if cname in BOMS else (False,)):
+                        bom = BOMS[cname] if with_bom else b""
+                        label = cname[:6] if fam == "utf16/32" else cname
+                        decl = label if channel != "http-app" else ""
+                        headers = {} if channel == "decl" else {"content-type": "application/xml" + ("; charset=" + cname if channel == "http-app" else "")}
+                        head = make_doc("", codec, decl, bom).split("</title>".encode(codec))[0]      # everything up to the first title's text
+                        unit = len("a".encode(codec))
+                        pad = B - shift - len(head)
+                        if pad < 0 or pad % unit:
+                            continue
+                        text = "a" * (pad // unit) + ch * 3 + " z"
+                        doc = make_doc(text, codec, decl, bom)
+                        assert doc[B - shift:B - shift + w] == ch.encode(codec), (codec, B, shift)
+                        yield {"doc": doc, "headers": headers, "expect": {"text": text, "codec": codec, "clean": True, "exc": None}, "channel": channel, "family": fam,
+                               "label": label, "decl": decl}
+
+
 def search(ctx, focus=None):
     rng = ctx.rng
     failures, n, distinct = [], 0, set()
     dist = {}
+    for c in boundary_cases(ctx.thorough):
+        n += 1
+        distinct.add((c["doc"], str(c["headers"])))
+        dist["boundary/" + c["family"]] = dist.get("boundary/" + c["family"], 0) + 1
+        f = check_case(c)
+        if f:
+            failures.append(f)
     force = None
     if focus and focus.get("disagreements"):
         # steer the generator towards the codecs / labels named in the disagreeing correspondence inputs
@@ -421,13 +478,28 @@ def search(ctx, focus=None):
             failures.append(f)
     return {"evaluations": n, "distinct_nontrivial": len(distinct), "failures": failures, "distribution": dist,
             "rule": "%d Python text codecs x label channels {declaration, HTTP charset with application/*xml and text/*xml, both, BOM only, '<?xm' signature, "
-                    "disagreeing channels, text/xml without charset, non-XML media types, bogus names} x label spellings (alias, canonical, upper case, "
-                    "underscore) x payloads drawn from each codec's repertoire (non-ASCII in 80%% of cases); oracle: text round-trips, encoding names the codec "
-                    "(or byte-order-specific / gb18030), bozo unset, or the documented exception class; distinct = distinct (document, headers)" % len(CODECS),
+                    "disagreeing channels, text/xml without charset, application/*xml without charset, non-XML media types, bogus names} x label spellings (alias, canonical, upper case, "
+                    "underscore) x payloads drawn from each codec's repertoire (non-ASCII in 80%% of cases; one in eight 120-9000 characters long and dense in multi-unit characters / surrogate pairs); oracle: text round-trips, encoding names the codec "
+                    "(or byte-order-specific / gb18030), bozo unset, or the documented exception class; plus a deterministic alignment sweep (a surrogate pair / multi-byte "
+                    "sequence straddling every power-of-two byte offset 2^8..2^16, each split point, x {declaration only, application/xml without charset, HTTP charset} x BOM or not, "
+                    "for UTF-16/32, UTF-8, Shift_JIS, GB18030, Big5, EUC-KR); distinct = distinct (document, headers)" % len(CODECS),
             "samples": [{"channel": "bom", "codec": "utf_16_le", "decl": None}, {"channel": "http-text", "codec": "koi8_r", "decl": "iso-8859-1"}]}
 
 
+def long_stateful_doc(codec):
+    """a correctly labelled feed in an escape-sequence encoding, longer than the 64 KiB detection prefix (deterministic)"""
+    import random
+    rng = random.Random("long/" + codec)
+    rep = repertoire(codec, rng)
+    text = "t" + "".join(rng.choice(rep) for _ in range(40000))          # no ASCII inside: the prefix boundary falls where an escape sequence is in force
+    return make_doc(text, codec, None), text
+
+
 def replay(w):
+    if w.get("construct") == "long-stateful":
+        doc, text = long_stateful_doc(w["codec"])
+        w = {"doc": doc, "headers": {"content-type": "application/rss+xml; charset=" + w["codec"]}, "expect": {"text": text, "codec": w["codec"], "clean": True, "exc": None},
+             "channel": "http-app", "family": "stateful"}
     c = {"doc": w["doc"], "headers": w["headers"], "expect": w["expect"], "channel": w["channel"], "family": w["family"], "label": "?", "decl": "?"}
     f = check_case(c)
     return (f is not None, f.what if f else "feed decoded as labelled")
